@@ -792,6 +792,35 @@ func runC04(c *Ctx) {
 			}
 		})
 		c.check(deferredClose, "R6", "recv closes the connection on exit", p.Pos(recv.Pos()), "defer c.conn.Close() at the top", "recv does not close the writer when it stops: the peer and later writers are never told")
+		// the failure must reach the waiting callers without needing the write lock: a request blocked in Write holds
+		// conn's mutex, and a receiver that has to take that mutex (to close the writer) before it broadcasts the loss
+		// waits for a write that may never end — nobody is told
+		locksBefore := ""
+		if lp := p.Func("(*clientConn).loop"); lp != nil {
+			for _, bc := range callsWhere(lp, func(cc *ssa.CallCommon) bool { return calleeName(cc) == "broadcastErr" }) {
+				eachInstr(lp, func(in ssa.Instruction) {
+					call, ok := in.(*ssa.Call)
+					if !ok || !dominates(in, bc) || in == bc {
+						return
+					}
+					f := call.Call.StaticCallee()
+					if f == nil || !inModule(f) {
+						return
+					}
+					for g := range p.cone(f) {
+						eachInstr(g, func(y ssa.Instruction) {
+							if cc := callOf(y); cc != nil {
+								if op, _, key, ok := mutexOp(cc); ok && op == "Lock" && key == "conn.Mutex" {
+									locksBefore = fnName(g)
+								}
+							}
+						})
+					}
+				})
+			}
+		}
+		c.check(locksBefore == "", "R6", "the loss is broadcast without the write lock", p.Pos(recv.Pos()), "no acquisition of conn's mutex before broadcastErr",
+			"the receiver takes conn's write mutex (in "+locksBefore+") before it calls broadcastErr: if a request is blocked in Write at that moment the mutex is held, the receiver never gets to broadcastErr, and the outstanding request, Wait and Close all hang")
 		if cl := p.Func("(*clientConn).Close"); cl == nil {
 			c.missing("R6", "(*clientConn).Close")
 		} else {
